@@ -375,4 +375,17 @@ theorem session_dsrcs (hc : CntOk o) (hnf : o.fsize = none) (so : SOpts) (co : C
     · have := RsI.append hrs2 hrs1
       simpa using this
 
+/-- the sources the user names, classified against the file system of the target (`pdshmodel pcp deep`) -/
+def classifyTop (so : SOpts) (fs : FS) (D : Path) : List (Str × Tree) → List (Str × DTree)
+  | [] => []
+  | (p, t) :: r => (p, classifyD fs D (sentName so p true) t) :: classifyTop so fs D r
+
+theorem classifyTop_srcs (so : SOpts) (fs : FS) (D : Path) (srcs : List (Str × Tree)) :
+    dTopSrcs (classifyTop so fs D srcs) = srcs := by
+  induction srcs with
+  | nil => rfl
+  | cons pt r ih =>
+    obtain ⟨p, t⟩ := pt
+    simp only [classifyTop, dTopSrcs, classifyD_src, ih]
+
 end PdshVerif.Pcp
